@@ -92,7 +92,7 @@ def obligations(tier):
         add("_tt:tensor_train", f"N={N}", tt_setup(N), run_tt, lambda S, I, r: ([("tt_to_tensor(TT-SVD(X)) ≡ X when every truncated SVD is exact", SP.tt_to_tensor(S, r), I["X"])] if S.name == "sym" else []),
             dict(order=N), "exact reconstruction at sufficient rank", assumptions=tt_pre(N))
     # ---- TT-matrix (2 cores, 3 in thorough)
-    for d in (2,) + ((3,) if tier == "thorough" else ()):
+    for d in (1, 2) + ((3,) if tier == "thorough" else ()):  # d = 1: a plain matrix, returned as a single core without any SVD
         def setup(S, d=d):
             ins, outs = dims(d, "in"), dims(d, "out")
             return dict(_S=S, X=S.input("X", ins + outs), ins=ins, outs=outs, rk=[1] + [atom(f"r{k}") for k in range(1, d)] + [1])
@@ -106,7 +106,7 @@ def obligations(tier):
         def call(I):
             with stubbed(_tt, svd_interface=make_svd_stub(I["_S"], None, exact=True)):
                 return list(_tt.tensor_train_matrix(I["X"], list(I["rk"])).factors)
-        add("_tt:tensor_train_matrix", f"d={d}", setup, call, lambda S, I, r: ([("tt_matrix_to_tensor(TTM-SVD(X)) ≡ X when every truncated SVD is exact", SP.tt_matrix_to_tensor(S, r), I["X"])] if S.name == "sym" else []),
+        add("_tt:tensor_train_matrix", f"d={d}", setup, call, lambda S, I, r, d=d: ([("tt_matrix_to_tensor(TTM-SVD(X)) ≡ X when every truncated SVD is exact", SP.tt_matrix_to_tensor(S, r), I["X"])] if S.name == "sym" or d == 1 else []),
             dict(n_cores=d), "exact reconstruction at sufficient rank (interleaving transpose as documented)", assumptions=pre)
     # ---- tensor ring SVD, every starting mode
     for N in (3,) + ((4,) if tier == "thorough" else ()):
@@ -143,16 +143,17 @@ def obligations(tier):
         shapes = [(4, 5), (3, 4, 5), (3, 3, 4, 2)] if tier == "quick" else [(4, 5), (5, 4), (3, 4, 5), (4, 4, 4), (3, 3, 4, 2), (2, 3, 2, 3)]
         for shape in shapes:
             N = len(shape)
-            gens = {"generic": rng.standard_normal(shape), "integer": rng.randint(-3, 4, size=shape).astype(float)}
+            gens = {"generic": rng.standard_normal(shape), "integer": rng.randint(-3, 4, size=shape).astype(float), "integer-dtype": rng.randint(-3, 4, size=shape)}
             core = rng.standard_normal([2] * N)
             low = core
             for k, s in enumerate(shape):
                 low = np.moveaxis(np.tensordot(rng.standard_normal((s, 2)), np.moveaxis(low, k, 0), axes=1), 0, k)
             gens["low-multilinear-rank"] = low
             for kind, X in gens.items():
-                nx = np.linalg.norm(X)
-                sv = [np.linalg.svd(unfold(X, k), compute_uv=False) for k in range(N)]
-                seq = [np.linalg.svd(X.reshape(int(np.prod(shape[:k + 1])), -1), compute_uv=False) for k in range(N - 1)]
+                Xf = X.astype(float)
+                nx = np.linalg.norm(Xf)
+                sv = [np.linalg.svd(unfold(Xf, k), compute_uv=False) for k in range(N)]
+                seq = [np.linalg.svd(Xf.reshape(int(np.prod(shape[:k + 1])), -1), compute_uv=False) for k in range(N - 1)]
                 for r in range(1, max(shape) + 2):
                     ranks = [min(r, s) for s in shape]
                     t = tucker(X, ranks, init="svd", n_iter_max=50, tol=1e-12)
@@ -178,7 +179,7 @@ def obligations(tier):
                             fails.append(f"tensor_train {shape}: returned rank {used} exceeds requested {r}")
         return n_eval, fails
     obs.append(BoundedOb(f"{PID}/bounded/quasi-optimality bounds and Tucker exactness on native inputs", "tensorly.decomposition:tucker+tensor_train", bounded,
-                         dict(orders="2-4", kinds="generic/integer/low-rank", ranks="1..max+1"), "orders 2-4, 3 tensor kinds per shape, all uniform ranks from 1 past the sizes, seed 0"))
+                         dict(orders="2-4", kinds="generic/integer-valued/integer-dtype/low-rank", ranks="1..max+1"), "orders 2-4, 4 tensor kinds per shape, all uniform ranks from 1 past the sizes, seed 0"))
     return obs
 
 
